@@ -141,6 +141,7 @@ structure TBDrv where
   lastObs : Option TBSpec.Obs := none
   pending : Option TBPending := none
   inBurst : Bool := false        -- between `burst-begin` and `burst-end`: operations linearised from a concurrent burst
+  lastGate : Option (Nat × List TB.Part) := none   -- the gate as last observed (partial observations carry none)
   dead : Bool := false
   diverged : Bool := false     -- model and implementation have disagreed in this history: monitors only from here on
   mon : TBSpec.Mon := {}
@@ -213,7 +214,7 @@ def tbLineMon (d : TBDrv) (lineNo : Nat) (ts : List String) : TBDrv × List Stri
       let p := d.pending.getD { label := "?", line := lineNo, implOk := true, membership := false }
       let (mon', vs) := TBSpec.onObs d.mon p.label p.implOk p.membership d.lastObs o
       let (d, out) := viol { d with mon := mon' } vs p.line
-      ({ d with lastObs := some o, pending := none }, out)
+      ({ d with lastObs := some o, lastGate := (match o.gate with | some g => some g | none => d.lastGate), pending := none }, out)
   | _ => (d, [s!"BADLINE {lineNo} unknown-tb-op"])
 
 def modeOf (s : String) : Mode := if s == "mtt" then .mtt else if s == "cash" then .cash else .ct
@@ -232,7 +233,7 @@ def tbLineCore (d : TBDrv) (lineNo : Nat) (ts : List String) : TBDrv × List Str
                           mode := modeOf ((kv rest "mode").getD "ct") }
       let h := (kvNat rest "h").getD (d.hist + 1)
       ({ d with hist := h, cfg := cfg, model := some (create cfg b), lastObs := none, pending := some { label := "new", line := lineNo, implOk := true, membership := false },
-                dead := false, diverged := false, inBurst := false, mon := {}, cnt := (d.cnt.bump "histories").bump s!"seats{n}" }, [])
+                dead := false, diverged := false, inBurst := false, lastGate := none, mon := {}, cnt := (d.cnt.bump "histories").bump s!"seats{n}" }, [])
     | _, _, _ => (d, [s!"BADLINE {lineNo} tb-new"])
   | "end" :: _ => ({ d with model := none, pending := none }, [])
   | "hang" :: _ =>
@@ -426,8 +427,12 @@ def tbLineCore (d : TBDrv) (lineNo : Nat) (ts : List String) : TBDrv × List Str
       let gateRace := out1 != [] && p.label == "continue.setup" &&
         (match o.gate with
          | some (gc, ps) => m.gateCount == gc && !ps.isEmpty && ps.all (·.ready) &&
-             ps.all (fun q => m.gate.any (fun r => r.id == q.id && r.idx == q.idx)) && m.gate.length == ps.length &&
              m.gate.all (fun r => !r.ready) &&
+             -- the participants shown are the new set-up's (already marked ready: D18) or still the previous gate's
+             ((ps.all (fun q => m.gate.any (fun r => r.id == q.id && r.idx == q.idx)) && m.gate.length == ps.length) ||
+              (match d.lastGate with
+               | some (_, old) => old.map (fun q => (q.id, q.idx)) == ps.map (fun q => (q.id, q.idx))
+               | none => false)) &&
              diffObs { m with gate := ps } o == none
          | none => false)
       if gateRace then
@@ -437,7 +442,7 @@ def tbLineCore (d : TBDrv) (lineNo : Nat) (ts : List String) : TBDrv × List Str
       let (mon', vs) := TBSpec.onObs d.mon p.label p.implOk p.membership d.lastObs o
       let (d, out2) := viol { d with mon := mon' } vs p.line
       if out1.isEmpty then
-        ({ d with model := some (TB.normalize m), lastObs := some o, pending := none }, out2)
+        ({ d with model := some (TB.normalize m), lastObs := some o, lastGate := (match o.gate with | some g => some g | none => d.lastGate), pending := none }, out2)
       else ({ d.kill with mismatches := d.mismatches + 1, lastObs := some o }, out1 ++ out2)
   | _ => (d, [s!"BADLINE {lineNo} unknown-tb-op"])
 
